@@ -32,6 +32,7 @@ func suiteConc(c *Ctx) {
 		concCuckoo(c, g)
 		concCuckooRemoveStorm(c, g)
 		concTopK(c, g)
+		concTopKHuge(c)
 	}
 }
 
@@ -463,5 +464,32 @@ func concCuckooRemoveStorm(c *Ctx, g int) {
 	c.rep.Ops["cuckoo.remove-storm"] += rounds
 	if bad != "" {
 		c.fail([]string{"C07", "C13"}, "conc-remove-more-than-stored", "CuckooFilter: "+bad, map[string]interface{}{"structure": "CuckooFilter", "goroutines": g})
+	}
+}
+
+// counts at the top of the uint64 range: two goroutines insert 2^63 each after a Values call
+// (whatever Values remembered is stale: the total of the stream wraps to its old value); both
+// completed inserts must be visible
+func concTopKHuge(c *Ctx) {
+	t := gostatix.NewTopK(4, 0.01, 0.05)
+	c.rep.Cases++
+	t.Insert([]byte("seed"), 1)
+	t.Values()
+	var wg sync.WaitGroup
+	for _, e := range []string{"alpha", "beta"} {
+		wg.Add(1)
+		go func(e string) {
+			defer wg.Done()
+			t.Insert([]byte(e), 1<<63)
+		}(e)
+	}
+	wg.Wait()
+	got := map[string]uint64{}
+	for _, v := range topkElems(t.Values()) {
+		got[v.V] = v.F
+	}
+	c.rep.Ops["topk.huge-counts"]++
+	if got["alpha"] < 1<<63 || got["beta"] < 1<<63 || got["seed"] < 1 {
+		c.fail([]string{"C07", "C04"}, "conc-own-write-invisible", fmt.Sprintf("TopK: after two goroutines inserted alpha and beta with 2^63 each (following a Values call), Values reports %v", got), map[string]interface{}{"structure": "TopK", "counts": "2^63"})
 	}
 }
